@@ -210,11 +210,34 @@ def c01(tier, seed):
 CANVAS_TAGS = ["C02", "C03", "C06L", "C06D", "C11T", "C02N", "C07", "C10", "C10I", "C18"]
 
 
-def canvas_sig(sc, tag, op):
+NONSEP = {"Hue", "Saturation", "Color", "Luminosity"}
+
+
+def canvas_sig(sc, tag, op, ci=None, msg=None):
     """Structural signature of a failing canvas event, for matching known findings."""
     calls = sc.get("calls", [])
-    ops = [c["op"] for c in calls]
-    return {"fam": "canvas", "tag": tag, "op": op}
+    sig = {"fam": "canvas", "tag": tag, "op": op}
+    if ci is not None and 1 <= ci <= len(calls):
+        c = calls[ci - 1]
+        mode = None
+        if isinstance(c.get("opts"), dict):
+            mode = c["opts"].get("blend")
+        if c.get("op") == "pop_layer":
+            # blend of the matching push_layer
+            depth = 0
+            for p in reversed(calls[:ci - 1]):
+                if p["op"] == "pop_layer":
+                    depth += 1
+                elif p["op"] == "push_layer":
+                    if depth == 0:
+                        mode = p.get("blend", "SrcOver")
+                        break
+                    depth -= 1
+        sig["nonsep_mode"] = mode in NONSEP
+    if msg is not None:
+        sig["panic_class"] = ("overflow" if "overflow" in msg else
+                              "premul_assert" if "<= a" in msg else "other")
+    return sig
 
 
 def canvas_validate(pid, v, scs, name, count_tags, workers=12, timeout=3000, only_panic_ops=None):
@@ -224,14 +247,33 @@ def canvas_validate(pid, v, scs, name, count_tags, workers=12, timeout=3000, onl
     t = validate(pid, "Trace_Canvas", tp, workers=workers, timeout=timeout)
     v.add_tlc(t)
     found = {}
+    recs = read_ndjson(tp)
+
+    def panic_msg(tup):
+        try:
+            tg = recs[tup[1] - 1]["targets"][tup[2] - 1]
+            for e in tg["events"]:
+                if e["ci"] == tup[3]:
+                    return e.get("msg", "")
+        except Exception:
+            pass
+        return ""
+
     for tag in CANVAS_TAGS:
         for tup in t.tuples(tag):
             found.setdefault(tag, []).append(tup)
+            sc = scs[tup[1] - 1]
             if tag in count_tags and (tag != "C07" or only_panic_ops is None or tup[4] in only_panic_ops):
-                sc = scs[tup[1] - 1]
+                msg = panic_msg(tup) if tag == "C07" else None
                 v.violation(sc, {"tag": tag, "target": tup[2], "call_index": tup[3], "op": tup[4],
-                                 "pixels": tup[5] if len(tup) > 5 else None,
-                                 "sig": canvas_sig(sc, tag, tup[4])})
+                                 "pixels": tup[5] if len(tup) > 5 else None, "msg": msg,
+                                 "sig": canvas_sig(sc, tag, tup[4], tup[3], msg)})
+            if tag == "C07" and "C18" in count_tags:
+                # sw-composite's own debug assertion `r|g|b <= a` in pack_argb32 IS the premultiplied check
+                msg = panic_msg(tup)
+                if "<= a" in msg:
+                    v.violation(sc, {"tag": "C18", "via": "sw-composite debug assertion: " + msg, "call_index": tup[3], "op": tup[4],
+                                     "sig": canvas_sig(sc, "C18", tup[4], tup[3], msg)})
     n02 = n03 = 0
     for tup in t.tuples("SUM"):
         n02 += tup[3]
@@ -240,7 +282,6 @@ def canvas_validate(pid, v, scs, name, count_tags, workers=12, timeout=3000, onl
     v.extra["pixels_checked_formula"] = v.extra.get("pixels_checked_formula", 0) + n03
     v.inconclusive += len(t.tuples("INC"))
     # non-trivial: the main target's pixels changed at some event
-    recs = read_ndjson(tp)
     for i, rec in enumerate(recs):
         if rec.get("outcome") == "timeout" or "targets" not in rec:
             continue
@@ -408,4 +449,58 @@ def c10(tier, seed):
     v.exhaustive = True
     canvas_validate("C10", v, scs, "all", {"C10", "C10I"})
     v.samples = [scs[0], scs[-1]]
+    return v.finish()
+
+
+def selfcheck(pid, v, seed, n):
+    """Pixel.tla against the real sw-composite functions; a mismatch is a tool error."""
+    scs = drive(pid, "selfcheck", seed, n)
+    tp = execute(pid, "self", scs)
+    t = validate(pid, "Trace_PixelSelf", tp, timeout=900)
+    v.add_tlc(t)
+    diffs = t.tuples("DIFF")
+    if diffs:
+        raise ToolError("Pixel.tla disagrees with sw-composite on %d tuples, e.g. %s" % (len(diffs), diffs[0]))
+    v.extra["spec_selfcheck_tuples"] = len(scs)
+    return t
+
+
+def known_scenarios(pid, fam=None):
+    """Scenarios of the known (unrepaired) findings of a property: replayed on every run."""
+    out = []
+    for k in core.load_known().get("known", []):
+        if k["property"] == pid and k.get("scenario"):
+            j = json.load(open(os.path.join(core.VERIF, k["scenario"])))
+            sc = j["scenario"]
+            if fam is None or sc.get("fam") == fam:
+                out.append(sc)
+    return out
+
+
+@prop("C18")
+def c18(tier, seed):
+    v = Verdicts("C18", tier, seed)
+    th = tier == "thorough"
+    v.rule = ("design level: MC_Pixel checks that every blend mode and compositing primitive of Pixel.tla preserves r,g,b <= a on a "
+              "boundary grid; impl level: the C03 canvas families (28 modes, coverage/clip ramps, alpha, layers) with premultiplied "
+              "destinations and sources, Premul evaluated by TLC on every recorded pixel after every call; conversions for all 256x256 (a,c); "
+              "non-trivial = the surface changed")
+    v.trusted = ["harness interpreter (harness/src/canvas.rs)", "Pixel.tla (self-checked against sw-composite)"]
+    r = run_tlc("C18", "MC_Pixel", env={"NONSEP": 0, "GRID": 1 if th else 0}, workers=12, timeout=1500)
+    v.add_tlc(r)
+    selfcheck("C18", v, seed, 20000 if th else 5000)
+    scs = canvas_gen("C18", v, "frame", 2, 28 if th else 8, salt=seed + 11)
+    scs += canvas_gen("C18", v, "layer", 4, 3, draws=3, simulate=3000 if th else 500, depth=9, seed=seed, salt=seed + 11)
+    scs += known_scenarios("C18", "canvas")
+    canvas_validate("C18", v, scs, "all", {"C18"})
+    conv = drive("C18", "views", seed, 256)
+    tp = execute("C18", "conv", conv)
+    t = validate("C18", "Trace_Convert", tp)
+    v.add_tlc(t)
+    v.evaluations += len(conv)
+    v.traces += len(conv)
+    for tup in t.tuples("BAD"):
+        v.violation(conv[tup[1] - 1], {"what": "conversion not premultiplied", "channels": tup[3], "sig": {"fam": "convert"}})
+    v.exhaustive = True
+    v.samples = [scs[0], conv[7]]
     return v.finish()
